@@ -73,6 +73,8 @@ class StructDef:
                 at += "@builtin(%s) " % m["builtin"]
             if m.get("location") is not None:
                 at += "@location(%d) " % m["location"]
+            if m.get("blend_src"):
+                at += "@second_blend_source "
             if m.get("interp"):
                 at += "@interpolate(%s) " % m["interp"]
             if m.get("size"):
